@@ -54,6 +54,11 @@ def hook_present():
     return None
 
 
+def script_hook_present():
+    vr = os.path.join(SRC, "agdb_server", "src", "verif.rs")
+    return os.path.exists(vr) and "VERIF_C31_SCRIPT" in open(vr).read()
+
+
 def build_test_binary():
     """cargo test --no-run of the agdb_server binary with the hook cfg; returns the test executable"""
     with vlib.Lock("cargo-server-test"):
@@ -88,6 +93,8 @@ def gen_cases(tier, seed):
         for perm in itertools.permutations(range(k)):
             cases.append([(i + 1, perm[i] * STEP) for i in range(k)])
     rng = random.Random(seed)
+    for k in (4, 5):        # carriers of the fixed script templates (gen_scripts)
+        cases.append([(i + 1, ((i * 2) % k) * STEP) for i in range(k)])
     for _ in range(nrand):
         k = rng.randint(2, krand)
         slots = rng.sample(range(0, k + 2), k)
@@ -95,15 +102,49 @@ def gen_cases(tier, seed):
     return cases
 
 
+def gen_scripts(cases, seed):
+    """per case an optional script of storage calls (None = append all, one commit): a committed prefix, further appends,
+    a commit covering several entries, ... (what a follower with a lagging commit index or a leader under concurrent requests does)"""
+    rng = random.Random(seed * 7919 + 1)
+    out = []
+    # fixed templates first (for the first cases with 4 and 5 entries): a prefix committed on its own, another append,
+    # then ONE commit call covering several entries, the newest of which was appended after the first commit
+    templates = {4: ["a1", "a2", "a3", "c1", "a4", "c4"], 5: ["a1", "a2", "a3", "a4", "c2", "a5", "c5"]}
+    for n, c in enumerate(cases):
+        k = len(c)
+        if k in templates:
+            out.append(templates.pop(k))
+            continue
+        if k < 3 or n % 2 == 0:
+            out.append(None)
+            continue
+        ops, appended, committed = [], 0, 0
+        while committed < k:
+            if appended < k and (appended == committed or rng.random() < 0.55):
+                appended += rng.randint(1, min(3, k - appended))
+                ops += ["a%d" % i for i in range(len([o for o in ops if o[0] == "a"]) + 1, appended + 1)]
+            else:
+                committed = rng.randint(committed + 1, appended)
+                ops.append("c%d" % committed)
+                if rng.random() < 0.3:
+                    ops.append("w")
+        out.append(ops)
+    return out
+
+
+def script_str(sc):
+    return ",".join(sc) if sc else ""
+
+
 def case_str(c):
     return ",".join("%d:%d" % (i, d) for i, d in c)
 
 
-def model_line(c, disc):
+def model_line(c, disc, script=None):
     k = len(c)
     by_delay = [i for i, _ in sorted(c, key=lambda p: p[1])]
     # the scheduler keeps asking for the entries in delay order; refused requests are no-ops in the model
-    evs = ["(c %x)" % k]
+    evs = ["(c %x)" % int(o[1:]) for o in script if o[0] == "c"] if script else ["(c %x)" % k]
     for _ in range(k):
         for i in by_delay:
             evs.append("(r %x)" % i)
@@ -120,10 +161,11 @@ def parse_model(line):
     return out
 
 
-def run_batch(exe, wdir, batch):
+def run_batch(exe, wdir, batch, scripts=None):
     """batch: list of (global case number, case).  returns {no: dict(order, effect, unexecuted)} and raw output"""
     env = dict(os.environ)
     env["VERIF_C31_CASE"] = ";".join(case_str(c) for _, c in batch)
+    env["VERIF_C31_SCRIPT"] = ";".join(script_str(scripts[no]) if scripts else "" for no, _ in batch)
     budget = 120 + sum(sum(d for _, d in c) for _, c in batch) // 1000 * 4 + 70 * len(batch)
     try:
         p = subprocess.run([exe, "verif::c31", "--exact", "--nocapture", "--test-threads", "1"], cwd=wdir, env=env,
@@ -153,6 +195,7 @@ def run(ctx):
     if drv is None:
         raise RuntimeError("driver build failed: " + dlog)
     cases = gen_cases(ctx.tier, ctx.seed)
+    scripts = gen_scripts(cases, ctx.seed) if script_hook_present() else [None] * len(cases)
     numbered = list(enumerate(cases))
     bsize = 12
     batches = [numbered[i:i + bsize] for i in range(0, len(numbered), bsize)]
@@ -160,7 +203,7 @@ def run(ctx):
     wdir = os.path.join(ctx.workdir, "c31")
     os.makedirs(wdir, exist_ok=True)
     with ThreadPoolExecutor(4) as ex:
-        results = list(ex.map(lambda b: run_batch(exe, wdir, b), batches))
+        results = list(ex.map(lambda b: run_batch(exe, wdir, b, scripts), batches))
     obs, raw = {}, []
     for r, out in results:
         obs.update(r)
@@ -168,7 +211,7 @@ def run(ctx):
     open(os.path.join(wdir, "impl_raw.txt"), "w").write("\n=====\n".join(raw))
 
     cpath, mpath = os.path.join(wdir, "cases.txt"), os.path.join(wdir, "model.txt")
-    open(cpath, "w").write("".join(model_line(c, DISC) + "\n" for c in cases))
+    open(cpath, "w").write("".join(model_line(c, DISC, scripts[n]) + "\n" for n, c in enumerate(cases)))
     rc, err = run_driver(drv, cpath, mpath)
     mlines = read_lines(mpath)
     if rc != 0 or len(mlines) != len(cases):
@@ -185,7 +228,9 @@ def run(ctx):
             nontrivial += 1
             dist["schedule-wants-reordering"] = dist.get("schedule-wants-reordering", 0) + 1
         o = obs.get(no)
-        desc = "case %s (one commit(%d) call; delay order %s)" % (case_str(c), len(c), by_delay)
+        if scripts[no]:
+            dist["scripted (several commits, appends in between)"] = dist.get("scripted (several commits, appends in between)", 0) + 1
+        desc = "case %s (%s; delay order %s)" % (case_str(c), ("storage calls " + script_str(scripts[no])) if scripts[no] else "one commit(%d) call" % len(c), by_delay)
         if o is None or "ORDER" not in o or "EFFECT" not in o:
             disagreements.append(dict(what="no observation", case=desc, model=mlines[no][:500], impl="(the test entry point printed nothing for this case; see impl_raw.txt)"))
             continue
